@@ -22,6 +22,10 @@ EXTENDS CertLoadProps
 (* with an element on a target's path, signed by a normal element, off-path,   *)
 (* or a target itself - and the certificate stays acyclic in the sense of      *)
 (* CertLoadProps (a path ends at the first `signed_by = Root`).                *)
+(* Names are JSON VALUES: a pool name stands for a string or for a number, a    *)
+(* boolean or null (the harness renders all of them, as `name`, `signed_by` and *)
+(* target alike; two values are the same name iff they are the same dictionary  *)
+(* key).  Nothing here depends on which it is.                                  *)
 CONSTANTS Stretching,   \* BOOLEAN: may one edge of a walked path stand for a long run of elements
           Pool,         \* element names, e.g. {"a", "b", "c", "root"}
           MaxItems, MaxTargets,
